@@ -2377,40 +2377,44 @@ def parse_config(bindings, skip_unknown=False):
   includes = []
   imports = []
   with _parse_scope() as parse_context:
-    for statement in parser:
-      if isinstance(statement, config_parser.BindingStatement):
-        scope, selector, arg_name, value, location = statement
-        if not arg_name:
-          macro_name = '{}/{}'.format(scope, selector) if scope else selector
-          with utils.try_with_location(location):
-            bind_parameter((macro_name, 'gin.macro', 'value'), value, location)
-        elif not _should_skip(selector, skip_unknown):
-          with utils.try_with_location(location):
-            bind_parameter((scope, selector, arg_name), value, location)
-      elif isinstance(statement, config_parser.BlockDeclaration):
-        if not _should_skip(statement.selector, skip_unknown):
+    try:
+      for statement in parser:
+        if isinstance(statement, config_parser.BindingStatement):
+          scope, selector, arg_name, value, location = statement
+          if not arg_name:
+            macro_name = '{}/{}'.format(scope, selector) if scope else selector
+            with utils.try_with_location(location):
+              bind_parameter((macro_name, 'gin.macro', 'value'), value, location)
+          elif not _should_skip(selector, skip_unknown):
+            with utils.try_with_location(location):
+              bind_parameter((scope, selector, arg_name), value, location)
+        elif isinstance(statement, config_parser.BlockDeclaration):
+          if not _should_skip(statement.selector, skip_unknown):
+            with utils.try_with_location(statement.location):
+              if not parse_context.get_configurable(statement.selector):
+                _raise_unknown_configurable_error(statement.selector)
+        elif isinstance(statement, config_parser.ImportStatement):
           with utils.try_with_location(statement.location):
-            if not parse_context.get_configurable(statement.selector):
-              _raise_unknown_configurable_error(statement.selector)
-      elif isinstance(statement, config_parser.ImportStatement):
-        with utils.try_with_location(statement.location):
-          try:
-            parse_context.process_import(statement)
-          except ImportError as e:
-            if not skip_unknown:
-              raise
-            _print_unknown_import_message(statement, e)
-      elif isinstance(statement, config_parser.IncludeStatement):
-        with utils.try_with_location(statement.location):
-          nested_includes = parse_config_file(statement.filename, skip_unknown)
-          includes.append(nested_includes)
-      else:
-        raise AssertionError(
-            'Unrecognized statement type {}.'.format(statement))
-    # Update recorded imports. Using the context's recorded imports ignores any
-    # `from __gin __ ...` statements used to enable e.g. dynamic registration.
-    imports.extend(statement.module for statement in parse_context.imports)
-    _IMPORTS.update(parse_context.imports)
+            try:
+              parse_context.process_import(statement)
+            except ImportError as e:
+              if not skip_unknown:
+                raise
+              _print_unknown_import_message(statement, e)
+        elif isinstance(statement, config_parser.IncludeStatement):
+          with utils.try_with_location(statement.location):
+            nested_includes = parse_config_file(statement.filename, skip_unknown)
+            includes.append(nested_includes)
+        else:
+          raise AssertionError(
+              'Unrecognized statement type {}.'.format(statement))
+    finally:
+      # Update recorded imports, also when a later statement fails to parse: the
+      # import statements preceding it have taken effect. Using the context's
+      # recorded imports ignores any `from __gin __ ...` statements used to
+      # enable e.g. dynamic registration.
+      imports.extend(statement.module for statement in parse_context.imports)
+      _IMPORTS.update(parse_context.imports)
   return includes, imports
 
 
